@@ -86,9 +86,14 @@ def case_export(run, i):
     has_cn = bool(i % 3)
     par = [None, "grch37", "grch38"][int(rng.integers(0, 3))]
     cols = _segments(rng, ploidy, male_ref, female, pre, par, has_cn)
+    drop = {3: "X", 5: "Y", 7: "autosomes"}.get(i % 10)       # tables lacking a chromosome class: a panel without X targets, a female-only design, a sex-chromosome chunk
+    if drop:
+        keep = [k for k, c in enumerate(cols["chromosome"]) if ((c.replace("chr", "") in ("X", "Y")) if drop == "autosomes" else c.replace("chr", "") != drop)]
+        if keep:
+            cols = {k2: [v[k] for k in keep] for k2, v in cols.items()}
     d = os.path.join(run.workdir, f"e{run.shard}_{i}")
     os.makedirs(d, exist_ok=True)
-    run.begin_case("export", i, cls=f"export:ploidy{ploidy}:{'cn' if has_cn else 'nocn'}")
+    run.begin_case("export", i, cls=f"export:ploidy{ploidy}:{'cn' if has_cn else 'nocn'}" + (f":no-{drop}" if drop else ""))
     seg = make_cna(cols, meta={"sample_id": "SampleA"}, odd=(i % 3 == 1))
 
     def safe(fn, *a):
